@@ -83,6 +83,25 @@ theorem c08_rejected_reorders :
     step exAll (start exAll) (.execUnits 0 [(2, true), (1, false)] [true]) = ({ unplanned := [3, 0] }, false) ∧
     (start exAll).unplanned = [0, 3] := by decide
 
+/-- a stop group whose first member holds a fixed stop, planned as `NewSolution` files it: the root in the fixed
+collection, every member on the route -/
+def exFixedAll : Units := { kind := [.all [1, 2], .stops, .stops], parent := [none, some 0, some 0], fixed := [false, true, false] }
+def exFixedAllState : CState := { onRoute := [1, 2], fixedC := [0] }
+
+/-- E44 (repaired): the un-plan of a member of a unit that is FIXED — through its own stops or through another member —
+is refused and changes nothing, for every state and every verdict of the constraints. -/
+theorem c08_member_of_fixed_unit_stays (U : Units) (s : CState) (u : Nat) (ok : Bool)
+    (hf : isFixed U ((parentOf U u).getD u) = true) : unplanStops U s u ok = (s, false) := by
+  simp [unplanStops, hf]
+
+/-- E44 as it was: the member without a fixed stop was taken off the route and the fixed root was filed as unplanned
+as well (the solver's un-plan operators did this; the thorough `sol` run showed it in a delivered solution). -/
+theorem c08_counterexample_member_of_fixed_group :
+    WFUnits exFixedAll = true ∧ BooksOK exFixedAll exFixedAllState = true ∧
+    isFixed exFixedAll 0 = true ∧
+    BooksOK exFixedAll (unplanStopsGiven exFixedAll exFixedAllState 2 true).1 = false ∧
+    unplanStops exFixedAll exFixedAllState 2 true = (exFixedAllState, false) := by decide
+
 /-! Non-vacuity: a history of the sub-alphabet with accepted and rejected steps. -/
 example : (∀ op ∈ [COp.execUnits 0 [(2, true), (1, false)] [true], .execUnits 0 [(1, true), (2, true)] [],
                     .execStops 3 true, .unplanUnits 0 [true, true], .unplanStops 3 false],
@@ -99,3 +118,5 @@ end NR.Props.C08
 #print axioms NR.Props.C08.c08_counterexample_oneof
 #print axioms NR.Props.C08.c08_counterexample_member_unplan
 #print axioms NR.Props.C08.c08_vehicle_unplan_example
+#print axioms NR.Props.C08.c08_member_of_fixed_unit_stays
+#print axioms NR.Props.C08.c08_counterexample_member_of_fixed_group
